@@ -201,7 +201,7 @@ class C04(Engine):
                 if oks < len(sel):
                     vs.append(V("C04.io-error-never-exit-0", f"{sc['ops'][0]['faults'][0]['kind']}: exit 0 with {oks} OK! lines for {len(sel)} files"))
             return vs
-        if end in ("hang", "slow"):
+        if end in ("hang", "slow", "invalid-scenario"):
             return []
         if end == "internal":
             if not sel:
